@@ -1539,11 +1539,14 @@ class Model:
             cache = self._create_cache()
         args = self.get_args(variables=variables, time=time)
 
+        # the argument table holds no data sets, but computed coefficients may name them
+        coef_args = self._data | args.to_dict() if self._data else args
+
         stoich_by_cpds = copy.deepcopy(cache.stoich_by_cpds)
         for cpd, stoich in cache.dyn_stoich_by_cpds.items():
             for rxn, derived in stoich.items():
                 stoich_by_cpds[cpd][rxn] = float(
-                    derived.fn(*(args[i] for i in derived.args))
+                    derived.fn(*(coef_args[i] for i in derived.args))
                 )
         return pd.DataFrame(stoich_by_cpds).T.fillna(0)
 
@@ -2366,9 +2369,11 @@ class Model:
         for k, stoc in cache.stoich_by_cpds.items():
             for flux, n in stoc.items():
                 dxdt[k] += n * dependent[flux]
+        # _get_args drops the data sets, but computed coefficients may name them
+        coef_args = dependent | self._data if self._data else dependent
         for k, sd in cache.dyn_stoich_by_cpds.items():
             for flux, dv in sd.items():
-                n = dv.calculate(dependent)
+                n = dv.calculate(coef_args)
                 dxdt[k] += n * dependent[flux]
         return tuple(dxdt[i] for i in cache.var_names)
 
@@ -2384,9 +2389,11 @@ class Model:
             for flux, n in stoc.items():
                 dxdt[k] += n * args[flux]
 
+        # the argument table holds no data sets, but computed coefficients may name them
+        coef_args = self._data | args if self._data else args
         for k, sd in cache.dyn_stoich_by_cpds.items():
             for flux, dv in sd.items():
-                n = dv.fn(*(args[i] for i in dv.args))
+                n = dv.fn(*(coef_args[i] for i in dv.args))
                 dxdt[k] += n * args[flux]
         return dxdt
 
